@@ -11,6 +11,7 @@ import hashlib
 import json
 import os
 import random
+import re
 import shutil
 import sys
 import tempfile
@@ -477,6 +478,8 @@ def worker_clients(seed, tier):
     failures = []
     counts = {}
     schedules = []
+    retried = {}
+    dask_internal = []
 
     def race(name, fresh, access, canon, cell=None, cfg=None):
         """fresh() -> a new shared object; access(obj) -> result; canon(result) -> comparable;
@@ -509,6 +512,15 @@ def worker_clients(seed, tier):
             events = list(EV['events'])
             counts[name] = counts.get(name, 0) + 1
             bad = [g for g in got if g != ('ok', expected)]
+            # Dask itself is not fully thread-safe when several threads compute collections that
+            # share expression objects: very rarely a client dies inside Dask's graph machinery
+            # with KeyError(<task key>).  Not spatialpandas code: counted, the round is repeated
+            # (a second failure of the same round is reported).
+            if bad and all(g[0] == 'raised' and re.match(r"KeyError: '[A-Za-z_\-]+-[0-9a-f]{32}'", g[1])
+                           for g in bad) and not retried.get((name, rd)):
+                retried[(name, rd)] = True
+                dask_internal.append({'object': name, 'round': rd, 'got': [g[1] for g in bad]})
+                continue
             if bad:
                 failures.append({'object': name, 'round': rd, 'expected': str(expected)[:200],
                                  'got': [str(b)[:200] for b in bad[:3]]})
@@ -568,7 +580,8 @@ def worker_clients(seed, tier):
     with dask.config.set(scheduler='threads', num_workers=4):
         race('DaskGeoDataFrame.cx (threads scheduler)', lambda: dd.from_pandas(GeoDataFrame(df0), npartitions=4),
              lambda d: d.cx[box[0]:box[2], box[1]:box[3]].compute(), lambda r: sorted(r['id'].tolist()))
-    return {'failures': failures, 'counts': counts, 'clients': N, 'schedules': schedules}
+    return {'failures': failures, 'counts': counts, 'clients': N, 'schedules': schedules,
+            'dask_internal': dask_internal}
 
 
 def main():
